@@ -53,7 +53,7 @@ CHECKS.update({
  "C10": ("k symbolic operations on the real file store (file.New) executed over a Go-written file-system model (os, bufio.Writer, encoding/gob, crypto/sha1 redirected): deliver, get, mark seen, remove, purge, visit, retention scan and reopen (a new Store on the same path, any number of times); after every step each mailbox equals a reference model in ids, order, metadata, seen flags, sizes and content; ids never reused; counterexamples replayed on a real temporary directory",
          "bounded: k <= 2 (thorough 3) operations after an optional concrete prelude, two mailboxes, 2-byte bodies, cap 0..2; gob round trip = deep copy of exported fields (validated by native replay of every cover point and counterexample); restart = id generator restarted as by package initialisation + new Store object; two processes sharing a directory at the same time are outside the claim", "4 C10"),
  "C11": ("one mutating file-store operation cut at a symbolic crash point (crash hooks before every file-system mutation and after every write, tag verif) with the write / recursive removal / directory creation in flight partly done (symbolic prefix, subset, depth); a fresh Store on the directory lists and visits every mailbox without error, other mailboxes intact, the operation all-or-nothing with complete content, new mail accepted; replayed natively with the same hooks on a real directory",
-         "bounded: one interrupted operation (deliver / mark seen / remove / purge) after a concrete prelude of 0..3 messages, cap 0..2; atomic steps = create/truncate, write, rename, remove, mkdir; data written before the crash point is durable and ordered (no fsync / write-reordering model); crash = panic in the hook, so deferred file-system mutations (none exist) would run; known finding: cap eviction is not atomic with the delivery", "4 C11"),
+         "bounded: one interrupted operation (deliver / mark seen / remove / purge) after a concrete prelude of 0..3 messages, cap 0..2; atomic steps = create/truncate, write, rename, remove, mkdir; data written before the crash point is durable and ordered (no fsync / write-reordering model); crash = panic in the hook, so deferred file-system mutations (none exist) would run", "4 C11"),
 })
 
 NOT_APPLICABLE = {
@@ -95,7 +95,7 @@ def main():
         "engines": [{"name": "gosmt", "path": "/verif/engine", "serves_properties": sorted(CHECKS), "kind_free_text": "go/ssa symbolic executor with state merging; SMT-LIB2 QF_BV queries decided by z3 5.1 (z3-new); counterexample and cover models replayed natively through `go test -overlay`"}],
         "checks": checks,
         "not_applicable": na,
-        "notes": "Every check exits 0 = all obligations unsat within the stated bounds and all cover points satisfiable and natively reached; 1 = replayed violation not listed in known_findings.json; 2 = broken (unsupported code, undecided query, vacuous harness, model that does not reproduce). fix: commits in /repo: 288c728 (C03), 7d87c36 (C06), 1c28c1b (C07), 3e84664 (C08), ab07dc1 (C14), 67b69e1 (C16), 4aea936+51ad804 (C15), 9975e1e+e3d37c1 (C19), eb0564f (C09), 9d661ca (C16 broker order), 9d98e20 (C07 file MarkSeen), ad2f77f+4c7bc0f (C11), 3de1e55 (C10 id reuse after restart), 9a3f2a1 (C04 domain case), 67ffb6e+cf6e756 (C04 empty / dotted base name), 7c537cb (C02 POP3 long lines), 0b6c731 (C04 POP3 mailbox name), 82795e5 (C15 closed listener).",
+        "notes": "Every check exits 0 = all obligations unsat within the stated bounds and all cover points satisfiable and natively reached; 1 = replayed violation not listed in known_findings.json; 2 = broken (unsupported code, undecided query, vacuous harness, model that does not reproduce). fix: commits in /repo: 288c728 (C03), 7d87c36 (C06), 1c28c1b (C07), 3e84664 (C08), ab07dc1 (C14), 67b69e1 (C16), 4aea936+51ad804 (C15), 9975e1e+e3d37c1 (C19), eb0564f (C09), 9d661ca (C16 broker order), 9d98e20 (C07 file MarkSeen), ad2f77f+4c7bc0f (C11), 3de1e55 (C10 id reuse after restart), 9a3f2a1 (C04 domain case), 67ffb6e+cf6e756 (C04 empty / dotted base name), 7c537cb (C02 POP3 long lines), 0b6c731 (C04 POP3 mailbox name), 82795e5 (C15 closed listener), 11dcc6e (C11 cap eviction atomic).",
     }
     json.dump(m, open('/verif/MANIFEST.json', 'w'), indent=1)
     print("checks:", [c['property_id'] for c in checks], "n/a:", len(na))
